@@ -51,8 +51,81 @@ theorem facts_guards :
     Facts.reqHashGuards = ["len(c.detectionPath) >= maxDetectionPaths"] ∧
     Facts.pathOverrideResyncs = true ∧
     Facts.mergeCond =
-      "l > 0 && app.stack[m][l-1].Path == route.Path && route.use == app.stack[m][l-1].use && !route.mount && !app.stack[m][l-1].mount" :=
+      "l > 0 && app.stack[m][l-1].Path == route.Path && (app.stack[m][l-1].pathOrig == \"\") == (route.pathOrig == \"\") && route.use == app.stack[m][l-1].use && !route.mount && !app.stack[m][l-1].mount" :=
   ⟨rfl, rfl, rfl, rfl⟩
+
+/-- `Method(override)` re-derives the cursor exactly when the method really changes, through
+`syncIndexRouteMethod`, whose guard (`Use` routes only), loops and final assignment are the ones
+`methodCursor` / `useRank` / `afterNthUse` transcribe (see `loop1_eq_useRank`, `loop2_eq_afterNthUse`) -/
+theorem facts_method_resync :
+    Facts.methodOverrideGuard = "methodInt != c.methodInt" ∧
+    Facts.methodOverrideBranch = "from := c.methodInt; c.methodInt = methodInt; c.syncIndexRouteMethod(from)" ∧
+    Facts.methodResyncGuard =
+      "c.route == nil || !c.route.use || from < 0 || from >= len(c.app.treeStack) || c.methodInt < 0 || c.methodInt >= len(c.app.treeStack)" ∧
+    Facts.methodResyncLoops =
+      ["i := 0; i <= c.indexRoute && i < len(oldTree); i++ :: if oldTree[i].use { n++ }",
+       "i := 0; n > 0 && i < len(newTree); i++ :: if newTree[i].use { n--; index = i }"] ∧
+    Facts.methodResyncAssign = "c.indexRoute = index" :=
+  ⟨rfl, rfl, rfl, rfl, rfl⟩
+
+/-- first loop of `syncIndexRouteMethod` with its loop variables: `l` = `oldTree[i:]`, `cur` = `indexRoute + 1`
+(so `i <= c.indexRoute` is `i < cur`), `n` the counter -/
+def loop1 {α : Type} (cur : Nat) : List (Route α) → Nat → Nat → Nat
+  | [], _, n => n
+  | x :: xs, i, n => if i < cur then loop1 cur xs (i + 1) (if x.use then n + 1 else n) else n
+
+theorem loop1_gen {α : Type} (cur : Nat) (l : List (Route α)) (i n : Nat) :
+    loop1 cur l i n = n + (l.take (cur - i)).countP (·.use) := by
+  induction l generalizing i n with
+  | nil => simp [loop1]
+  | cons x xs ih =>
+    simp only [loop1]
+    split
+    · rename_i h
+      have e : cur - i = (cur - (i + 1)) + 1 := by omega
+      rw [ih, e, List.take_succ_cons, List.countP_cons]
+      by_cases hx : x.use = true
+      · simp only [hx, ↓reduceIte]; omega
+      · simp only [hx, Bool.false_eq_true, ↓reduceIte]; omega
+    · rename_i h
+      have e : cur - i = 0 := by omega
+      simp [e]
+
+/-- the first Go loop computes `useRank` -/
+theorem loop1_eq_useRank {α : Type} (l : List (Route α)) (cur : Nat) : loop1 cur l 0 0 = useRank l cur := by
+  rw [loop1_gen]; simp [useRank]
+
+/-- second loop of `syncIndexRouteMethod` with its loop variables: `l` = `newTree[i:]`, `n` the number of
+`Use` routes still to pass, `c` = `index + 1` (the cursor; `index = -1` is `c = 0`) -/
+def loop2 {α : Type} : List (Route α) → Nat → Nat → Nat → Nat
+  | [], _, _, c => c
+  | x :: xs, i, n, c =>
+    if n > 0 then (if x.use then loop2 xs (i + 1) (n - 1) (i + 1) else loop2 xs (i + 1) n c) else c
+
+theorem loop2_gen {α : Type} (l : List (Route α)) (i n c : Nat) :
+    loop2 l i n c = if afterNthUse l n = 0 then c else i + afterNthUse l n := by
+  induction l generalizing i n c with
+  | nil => cases n <;> simp [loop2, afterNthUse]
+  | cons x xs ih =>
+    cases n with
+    | zero => simp [loop2, afterNthUse]
+    | succ n =>
+      simp only [loop2, Nat.zero_lt_succ, ↓reduceIte, Nat.add_sub_cancel, afterNthUse]
+      by_cases hx : x.use = true
+      · simp only [hx, ↓reduceIte]
+        rw [ih]
+        by_cases ha : afterNthUse xs n = 0
+        · simp [ha]
+        · simp [ha]; omega
+      · simp only [hx, Bool.false_eq_true, ↓reduceIte]
+        rw [ih]
+        by_cases hb : afterNthUse xs (n + 1) = 0
+        · simp [hb]
+        · simp [hb]; omega
+
+/-- the second Go loop computes `afterNthUse` (as `index + 1`) -/
+theorem loop2_eq_afterNthUse {α : Type} (l : List (Route α)) (n : Nat) : loop2 l 0 n 0 = afterNthUse l n := by
+  rw [loop2_gen]; split <;> simp_all
 
 /-- method ints are unambiguous -/
 theorem facts_methods_nodup : Facts.methods.Nodup := by decide
